@@ -108,7 +108,12 @@ def stmt_value(out, kind, val, quote, prefix_len=0):
         return enc_attr(s, quote)
 
     def esc_semi(s):
-        return s.replace(";", ";;")
+        # a semicolon inside a part is doubled - except the one that ends
+        # entity-like text (&lt; &#38;), which the statement parser takes
+        # as part of that text (char.)
+        import re as _re
+        return _re.sub(r"(&#?x?\w{1,8};)|;",
+                       lambda m: m.group(1) or ";;", s)
     if kind == "define":
         first = True
         for head, es in define_src(val, sq):
